@@ -31,12 +31,31 @@ def groupCalls (toks : List String) : List CallObs × List String :=
       (done, { cur with msgs := cur.msgs ++ [⟨(unhex (t.drop 1).toString).getD [], []⟩] }, tail)
     else if t.startsWith "W" then (done, { cur with written := (unhex (t.drop 1).toString).getD [] }, tail)
     else if t.startsWith "F" then (done, { cur with flushes := (t.drop 1).toString.toNat?.getD 0 }, tail)
+    else if t.startsWith "Q" then acc          -- service requests: compared with the model, not judged here
     else if t.startsWith "R" then (done ++ [{ cur with result := t == "R1" }], {}, tail)
     else match cur.msgs.reverse with
       | [] => (done, { cur with pre := cur.pre ++ [t] }, tail)
       | m :: ms => (done, { cur with msgs := (⟨m.msg, m.events ++ [t]⟩ :: ms).reverse }, tail)
   let (done, _, tail) := toks.foldl step ([], {}, [])
   (done, tail)
+
+/-- the items a library handler emits when they do not depend on the instrument state (`none` = they do) -/
+def builtinItems : Builtin → Option (List Bytes)
+  | .eseQ | .esrQ | .sreQ | .stbQ | .errNextQ | .errCountQ | .quesCondQ | .quesEvenQ | .quesEnabQ
+  | .operCondQ | .operEvenQ | .operEnabQ => none
+  | .opcQ => some [[49]]
+  | .tstQ | .stubQ => some [[48]]
+  | .versQ => some [bytesOf Gen.STD_VERSION]
+  | .idnQ f => some ((List.range 4).map (fun i => match f.getD i none with | some s => s.takeWhile (· ≠ 0) | none => [48]))
+  | _ => some []
+
+/-- the framing judge needs the items from the script alone: not possible when a handler of the library answers from the
+instrument state, or when `*ESE` / `*SRE` (which end the script on a bad parameter) come before result writers -/
+def stateDependent (s : List SOp) : Bool :=
+  s.any (fun o => match o with | .builtin b => (builtinItems b).isNone | _ => false) ||
+  (s.any (fun o => o == .builtin .ese || o == .builtin .sre) &&
+   s.any (fun o => match o with | .rInt .. | .rIntN .. | .rFloatText _ | .rBool _ | .rText _ | .rChars _ | .rBlock _ | .rBlockHeader _ | .rBlockData _ | .rArrBin .. => true
+                                | .builtin b => builtinItems b != some [] | _ => false))
 
 /-- items a script emits when it runs to its `ret` (readers never stop it): independent encoders -/
 def scriptItems (s : List SOp) : List Bytes :=
@@ -67,6 +86,7 @@ def scriptItems (s : List SOp) : List Bytes :=
           let wire := elems.flatMap (fun e => if same then e else e.reverse)
           go rest none (encodeBlock wire :: acc)
         else go rest blk acc
+      | .builtin b => go rest blk (((builtinItems b).getD []).reverse ++ acc)
       | _ => go rest blk acc
   go s none []
 
@@ -117,7 +137,7 @@ def judgeRun (cmds : List Cmd) (toks : List String) : List String :=
         let tags := m.events.filterMap (fun t => if t.startsWith "H" then ((t.drop 1).toString.splitOn ":").headD "" |>.toInt? else none)
         let scripts := tags.map (fun t => (cmds.find? (fun c => c.tag == t)).map (·.script) |>.getD [])
         (scripts, m.events))
-      let skip := perMsg.any (fun (ss, evs) => ss.any (fun s => hasIncompleteBlock s ||
+      let skip := perMsg.any (fun (ss, evs) => ss.any (fun s => hasIncompleteBlock s || stateDependent s ||
         (s.any (fun o => o == .onFail true) && evs.any (fun t => (t.startsWith "I0" || t.startsWith "L0" || t.startsWith "B0" || t.startsWith "C0" || t.startsWith "N0" || t.startsWith "Y0" || t.startsWith "X0" || t.startsWith "A0")))))
       if skip then [] else
       let want := perMsg.flatMap (fun (ss, _) => frame (ss.map scriptItems))
